@@ -42,8 +42,8 @@ impl Buffer {
         if self.have < 0 {
             self.state.refill(drounds, &mut self.out);
             self.have += BLOCK as i8;
-            // checked in seek()
-            self.len -= 1;
+            // checked in seek(); the 64-bit counter variants count down from 0 modulo 2^64
+            self.len = self.len.wrapping_sub(1);
         }
         let mut have = self.have as usize;
         let have_ready = cmp::min(have, data.len());
